@@ -89,19 +89,20 @@ Record Inv (c : cst) : Prop := {
   inv_files : forall g, In g (possible c) -> forall f, In f (files_of c g) ->
               In f (ns_files (base c)) /\ In f (term c) /\ pending_unlink f (pend c) = false;
   inv_lt : forall g, In g (possible c) -> g < ngen c;
-  inv_ret : forall r, returned c = Some r -> (forall g, In g (possible c) -> r <= g) /\ ns_meta (base c) <> None
+  inv_ret : forall r, returned c = Some r -> (forall g, In g (possible c) -> r <= g) /\ ns_meta (base c) <> None;
+  inv_sorted : forall g0, ns_meta (base c) = Some g0 -> forall g, In g (pend_metas (pend c)) -> g0 < g
 }.
 
 Lemma inv_init : Inv init.
 Proof. split; cbn; intros; try contradiction; discriminate. Qed.
 
-Lemma files_of_app c fs g (c' := {| base := base c; pend := pend c ++ [SetMeta (ngen c)]; term := term c; gens := gens c ++ [fs]; returned := returned c |}) :
+Lemma files_of_app c fs o g (c' := {| base := base c; pend := pend c ++ [SetMeta (ngen c)]; term := term c; gens := gens c ++ [(fs, o)]; returned := returned c |}) :
   g < ngen c -> files_of c' g = files_of c g.
 Proof.
-  intros H. unfold files_of, c'. cbn [gens]. unfold ngen in H. apply app_nth1. lia.
+  intros H. unfold files_of, c'. cbn [gens]. unfold ngen in H. f_equal. apply app_nth1. lia.
 Qed.
 
-Lemma files_of_new c fs (c' := {| base := base c; pend := pend c ++ [SetMeta (ngen c)]; term := term c; gens := gens c ++ [fs]; returned := returned c |}) :
+Lemma files_of_new c fs o (c' := {| base := base c; pend := pend c ++ [SetMeta (ngen c)]; term := term c; gens := gens c ++ [(fs, o)]; returned := returned c |}) :
   files_of c' (ngen c) = fs.
 Proof.
   unfold files_of, c', ngen. cbn [gens]. rewrite Nat2N.id, app_nth2, Nat.sub_diag by lia. reflexivity.
@@ -123,7 +124,7 @@ Qed.
 
 Lemma inv_step c e : Inv c -> check c e = true -> Inv (cstep c e).
 Proof.
-  intros [If Il Ir] Hc. destruct e as [p|p|fs|p| |].
+  intros [If Il Ir Is] Hc. destruct e as [p|p|fs o|p| |o].
   - (* ECreate *)
     split; cbn [cstep base pend term gens returned].
     + intros g Hg f Hf.
@@ -137,14 +138,16 @@ Proof.
     + intros r Hr. destruct (Ir r Hr) as [A B]. split; [|exact B]. intros g Hg. apply A.
       apply possible_In_pend. apply possible_In_pend in Hg. cbn [base pend] in Hg.
       rewrite pend_metas_app in Hg. cbn [pend_metas flat_map app] in Hg. rewrite app_nil_r in Hg. exact Hg.
+    + intros g0 E g Hg. rewrite pend_metas_app in Hg. cbn [pend_metas flat_map app] in Hg. rewrite app_nil_r in Hg. eapply Is; eassumption.
   - (* ETerminate *)
     split; cbn [cstep base pend term gens returned].
     + intros g Hg f Hf. destruct (If g Hg f Hf) as (A & B & C). repeat split; auto. now right.
     + exact Il.
     + exact Ir.
+    + exact Is.
   - (* EMetaWrite *)
     cbn [check] in Hc. rewrite forallb_forall in Hc.
-    assert (Hposs : forall g, In g (possible (cstep c (EMetaWrite fs))) -> In g (possible c) \/ g = ngen c).
+    assert (Hposs : forall g, In g (possible (cstep c (EMetaWrite fs o))) -> In g (possible c) \/ g = ngen c).
     { intros g Hg. apply possible_In_pend in Hg. cbn [cstep base pend] in Hg. rewrite pend_metas_app in Hg.
       cbn [pend_metas flat_map app] in Hg. rewrite in_app_iff in Hg. cbn [In] in Hg.
       destruct Hg as [E|[H|[E|[]]]]; [left|left|right; auto]; apply possible_In_pend; auto. }
@@ -165,6 +168,9 @@ Proof.
       destruct (ns_meta (base c)) as [g0|] eqn:E; [|contradiction].
       assert (In g0 (possible c)) by (apply possible_In_pend; auto).
       specialize (A g0 H). specialize (Il g0 H). lia.
+    + cbn [cstep base pend]. intros g0 E g Hg. rewrite pend_metas_app in Hg. cbn [pend_metas flat_map app] in Hg.
+      rewrite in_app_iff in Hg. destruct Hg as [Hg|[<-|[]]]; [eapply Is; eassumption|].
+      apply Il. apply possible_In_pend. now left.
   - (* EDelete *)
     cbn [check] in Hc. rewrite forallb_forall in Hc.
     assert (Hposs : forall g, In g (possible (cstep c (EDelete p))) -> In g (possible c)).
@@ -178,6 +184,7 @@ Proof.
       assert (mem p (files_of c g) = true) by (apply mem_In; exact Hf). congruence.
     + intros g Hg. apply Il, Hposs, Hg.
     + intros r Hr. destruct (Ir r Hr) as [A B]. split; [|exact B]. intros g Hg. apply A, Hposs, Hg.
+    + intros g0 E g Hg. rewrite pend_metas_app in Hg. cbn [pend_metas flat_map app] in Hg. rewrite app_nil_r in Hg. eapply Is; eassumption.
   - (* ESyncDir *)
     assert (Hposs : forall g, In g (possible (cstep c ESyncDir)) -> In g (possible c)).
     { intros g Hg. apply possible_In_pend in Hg. cbn [cstep base pend pend_metas flat_map] in Hg.
@@ -188,16 +195,17 @@ Proof.
     + intros g Hg. apply Il, Hposs, Hg.
     + intros r Hr. destruct (Ir r Hr) as [A B]. split; [intros g Hg; apply A, Hposs, Hg|].
       apply apply_all_meta_some. exact B.
+    + intros g0 E g Hg. cbn in Hg. contradiction.
   - (* ECommitRet *)
-    cbn [check] in Hc. destruct (pend_metas (pend c)) eqn:Ep; [|discriminate].
-    destruct (ns_meta (base c)) as [g0|] eqn:Eb; [|discriminate]. apply N.eqb_eq in Hc.
-    assert (Hp : possible c = [g0]). { unfold possible. rewrite Eb, Ep. reflexivity. }
+    cbn [check] in Hc. destruct (ns_meta (base c)) as [g0|] eqn:Eb; [|discriminate].
     split; cbn [cstep base pend term gens returned].
     + exact If.
     + exact Il.
-    + intros r Hr. destruct (N.eqb_spec (ngen c) 0) as [E0|E0]; [lia|]. injection Hr as <-.
-      split; [|rewrite Eb; discriminate]. intros g Hg.
-      unfold possible in Hg. cbn [base pend] in Hg. rewrite Eb, Ep in Hg. destruct Hg as [<-|[]]. lia.
+    + rewrite Eb. intros r Hr. injection Hr as <-. split; [|discriminate].
+      intros g Hg. change (possible (cstep c (ECommitRet o))) with (possible c) in Hg.
+      apply possible_In_pend in Hg. cbn [base pend] in Hg. destruct Hg as [Hg|Hg]; [assert (g = g0) by congruence; lia|].
+      specialize (Is g0 eq_refl g Hg). lia.
+    + rewrite Eb. exact Is.
 Qed.
 
 Lemma monitor_from_inv t : forall c, Inv c -> monitor_from c t = true -> Inv (fold_left cstep t c).
@@ -259,4 +267,44 @@ Lemma first_bad_none t : forall c i, first_bad_from c t i = None <-> monitor_fro
 Proof.
   induction t as [|e t IH]; intros c i; cbn [first_bad_from monitor_from]; [tauto|].
   destruct (check c e); cbn [andb]; [apply IH|split; discriminate].
+Qed.
+
+(* ---------- C11: a commit that returned Ok is complete and durable ---------- *)
+Lemma monitor_from_app t1 t2 : forall c,
+  monitor_from c (t1 ++ t2) = monitor_from c t1 && monitor_from (fold_left cstep t1 c) t2.
+Proof.
+  induction t1 as [|e t1 IH]; intros c; [reflexivity|].
+  cbn [app monitor_from fold_left]. rewrite IH. now rewrite andb_assoc.
+Qed.
+
+Lemma subseq_pend_metas sub l g : subseq sub l -> In g (pend_metas sub) -> In g (pend_metas l).
+Proof. intros Hs Hg. apply pend_metas_In. apply pend_metas_In in Hg. eapply subseq_In; eassumption. Qed.
+
+Lemma commit_ret_durable c o : Inv c -> check c (ECommitRet o) = true ->
+  exists g0, ns_meta (base c) = Some g0 /\ opstamp_of c g0 = o /\
+  forall img, crash c img -> exists g, ns_meta img = Some g /\ g0 <= g /\ g < ngen c /\ openable c img g.
+Proof.
+  intros Hi Hc. cbn [check] in Hc.
+  destruct (ns_meta (base c)) as [g0|] eqn:Eb; [|discriminate]. apply N.eqb_eq in Hc.
+  exists g0. split; [reflexivity|]. split; [exact Hc|].
+  intros img Hcr. destruct (crash_recover c img Hi Hcr) as [A _].
+  destruct Hcr as (sub & Hsub & ->).
+  destruct (ns_meta (apply_all (base c) sub)) as [g|] eqn:Eg.
+  - exists g. split; [reflexivity|]. destruct (A g eq_refl) as (Ho & Hlt & _).
+    split; [|split; [exact Hlt|exact Ho]].
+    apply apply_all_meta in Eg. destruct Eg as [Eg|Eg]; [rewrite Eb in Eg; injection Eg as <-; lia|].
+    apply (subseq_pend_metas _ _ _ Hsub) in Eg. pose proof (inv_sorted c Hi g0 Eb g Eg). lia.
+  - exfalso. revert Eg. apply apply_all_meta_some. rewrite Eb. discriminate.
+Qed.
+
+Theorem ok_commit_is_complete t1 t2 o : monitor (t1 ++ ECommitRet o :: t2) = true ->
+  exists g0, ns_meta (base (run t1)) = Some g0 /\ opstamp_of (run t1) g0 = o /\
+  forall img, crash (run t1) img ->
+  exists g, ns_meta img = Some g /\ g0 <= g /\ g < ngen (run t1) /\ openable (run t1) img g.
+Proof.
+  intros Hm. unfold monitor in Hm. rewrite monitor_from_app in Hm.
+  apply andb_true_iff in Hm. destruct Hm as [H1 H2]. cbn [monitor_from] in H2.
+  apply andb_true_iff in H2. destruct H2 as [H2 _].
+  apply commit_ret_durable; [|exact H2].
+  unfold run. apply monitor_from_inv; [apply inv_init|exact H1].
 Qed.
